@@ -2,6 +2,7 @@ package main
 
 import (
 	"fmt"
+	"go/token"
 	"sort"
 	"strings"
 
@@ -107,6 +108,8 @@ func init() {
 			Run: func(P *Program, R *Report) { completenessRule(P, R) }},
 		Rule{ID: "C04.c", Explain: "getUndisclosedAttributes appends index i exactly when i is not a member of the disclosed list, for i in 0..numAttributes-1 (no other condition controls the append).",
 			Run: func(P *Program, R *Report) { complementRule(P, R) }},
+		Rule{ID: "C04.e", Explain: "the holder's attribute values are read-only for the prover: in the call tree of the disclosure entry points no element of Credential.Attributes or of the builder's attribute list is overwritten, and no integer loaded from them is the receiver of a mutating big.Int method (a proof must report the true values, and the credential must survive being shown).",
+			Run: func(P *Program, R *Report) { attributesReadOnlyRule(P, R) }},
 		Rule{ID: "C04.d", Explain: "the ProofD built by CreateProof sets each field from its tabled source (symbolic terms for the e and v responses).",
 			Run: func(P *Program, R *Report) { proofDLiteralRule(P, R) }},
 	)
@@ -511,5 +514,103 @@ func proofDLiteralRule(P *Program, R *Report) {
 		if !seen[f] {
 			R.bad(rule, kDPBCreateProof+":ProofD."+f, "field is set", "ProofD."+f+" is never assigned", P.Pos(fn.Pos()))
 		}
+	}
+}
+
+// attributesReadOnlyRule (C04.e).
+func attributesReadOnlyRule(P *Program, R *Report) {
+	rule := "C04.e"
+	attrFields := map[string]bool{"gabi.Credential.Attributes": true, "gabi.DisclosureProofBuilder.attributes": true}
+	var roots []*ssa.Function
+	for _, k := range []string{"gabi.(*Credential).CreateDisclosureProof", "gabi.(*Credential).CreateDisclosureProofBuilder", "gabi.(*DisclosureProofBuilder).Commit",
+		"gabi.(*DisclosureProofBuilder).CreateProof", "gabi.(*DisclosureProofBuilder).TimestampRequestContributions", "gabi.(ProofBuilderList).BuildProofList", "gabi.(ProofBuilderList).BuildDistributedProofList"} {
+		if f := mustFunc(P, R, rule, k); f != nil {
+			roots = append(roots, f)
+		}
+	}
+	fns := P.reachableFuncs(roots...)
+	// the attribute list as a value: a load of one of the two fields (possibly re-sliced)
+	var isAttrList func(v ssa.Value, depth int) bool
+	isAttrList = func(v ssa.Value, depth int) bool {
+		if depth > 6 {
+			return false
+		}
+		switch x := v.(type) {
+		case *ssa.UnOp:
+			if fa, ok := x.X.(*ssa.FieldAddr); ok && x.Op == token.MUL {
+				return attrFields[typeKey(fa.X.Type())+"."+fieldName(fa.X.Type(), fa.Field)]
+			}
+		case *ssa.Slice:
+			return isAttrList(x.X, depth+1)
+		case *ssa.Phi:
+			for _, e := range x.Edges {
+				if isAttrList(e, depth+1) {
+					return true
+				}
+			}
+		}
+		return false
+	}
+	isAttrElem := func(v ssa.Value) bool {
+		seen := map[ssa.Value]bool{}
+		var walk func(x ssa.Value) bool
+		walk = func(x ssa.Value) bool {
+			if seen[x] {
+				return false
+			}
+			seen[x] = true
+			switch y := x.(type) {
+			case *ssa.UnOp:
+				if ia, ok := y.X.(*ssa.IndexAddr); ok && y.Op == token.MUL {
+					return isAttrList(ia.X, 0)
+				}
+			case *ssa.Phi:
+				for _, e := range y.Edges {
+					if walk(e) {
+						return true
+					}
+				}
+			case *ssa.Extract:
+				if n, ok := y.Tuple.(*ssa.Next); ok && y.Index == 2 {
+					if r, ok := n.Iter.(*ssa.Range); ok {
+						return isAttrList(r.X, 0)
+					}
+				}
+			}
+			return false
+		}
+		return walk(v)
+	}
+	nUses := 0
+	bad := map[string]string{}
+	for _, fn := range fns {
+		allInstrs(fn, func(i ssa.Instruction) {
+			switch x := i.(type) {
+			case *ssa.Store:
+				if ia, ok := x.Addr.(*ssa.IndexAddr); ok && isAttrList(ia.X, 0) {
+					bad[FuncKey(fn)+":store(attributes[...])"] = P.Pos(x.Pos()) + ": an element of the attribute list is overwritten"
+				}
+			case *ssa.Call:
+				m := bigMethod(x)
+				if m == "" {
+					return
+				}
+				for k, a := range x.Call.Args {
+					if isAttrElem(a) {
+						nUses++
+						if k == 0 && bigMutators[m] {
+							bad[FuncKey(fn)+":in-place(attributes[...])"] = fmt.Sprintf("%s: attribute.%s(...) overwrites the attribute value", P.Pos(x.Pos()), m)
+						}
+					}
+				}
+			}
+		})
+	}
+	R.decide(rule, "uses:count", "uses of attribute values as big.Int operands in the proving call tree were found (>= 3)", nUses >= 3, fmt.Sprintf("%d in %d functions", nUses, len(fns)), "")
+	for _, k := range sortedKeys(boolSet(bad)) {
+		R.bad(rule, k, "the prover does not modify the holder's attribute values", bad[k], "")
+	}
+	if len(bad) == 0 {
+		R.ok(rule, "gabi:attributes-read-only", fmt.Sprintf("no store to the attribute lists and none of the %d operand uses is the receiver of a mutating big.Int method", nUses))
 	}
 }
